@@ -35,6 +35,8 @@ pub(super) fn generate_field_definitions(
                     .ok_or_else(|| Error::new_spanned(field, "Field must have a name"))?;
 
                 let field_type = utils::remove_lifetimes_from_type(&field.ty);
+                // A raw identifier (`r#type`) names the field `type`.
+                let field_name = &syn::ext::IdentExt::unraw(field_name);
                 let field_name_str = field_name.to_string();
 
                 let static_name = if let Some(variant_ident) = variant_prefix {
